@@ -185,6 +185,10 @@ func progs() []prog {
 		{name: "multi/Locks[a,b,c]|Locks[b,c]|RLocks[a,c]", multi: true, threads: [][]step{{W(a, b, c)}, {W(b, c)}, {R(a, c)}}, pb: [2]int{2, 4}},
 		{name: "multi/Locks[a,b]|RLocks[a,b]|Locks[a,b]", multi: true, threads: [][]step{{W(a, b)}, {R(a, b)}, {W(a, b)}}, pb: [2]int{2, 4}},
 		{name: "multi/Locks[a,c]|Locks[b,c]|Lock(a)Lock(c)", multi: true, threads: [][]step{{W(a, c)}, {W(b, c)}, {W(a), W(c)}}, pb: [2]int{2, 4}},
+		// long lists (13 and 21 keys, several per shard): library sorts change algorithm above 12 elements
+		{name: "multi/Locks[1..13]|Locks[1,4]", multi: true, threads: [][]step{{W(1, 2, 3, 4, 5, 6, 7, 8, 9, 10, 11, 12, 13)}, {W(1, 4)}}, pb: [2]int{1, 2}},
+		{name: "multi/Locks[1..21]|Locks[2,8,20]|RLocks[5,11]", multi: true, threads: [][]step{{W(1, 2, 3, 4, 5, 6, 7, 8, 9, 10, 11, 12, 13, 14, 15, 16, 17, 18, 19, 20, 21)}, {W(2, 8, 20)}, {R(5, 11)}}, pb: [2]int{1, 1}},
+		{name: "multi/RLocks[1..13]|Locks[3,9]|Locks[1..13]", multi: true, threads: [][]step{{R(1, 2, 3, 4, 5, 6, 7, 8, 9, 10, 11, 12, 13)}, {W(3, 9)}, {W(1, 2, 3, 4, 5, 6, 7, 8, 9, 10, 11, 12, 13)}}, pb: [2]int{1, 1}},
 	}
 }
 
